@@ -33,7 +33,8 @@ func (rw *readWriter) Read(p []byte) (n int, err error) {
 	rw.m.Lock()
 	defer rw.m.Unlock()
 
-	if !rw.closed.Load() && rw.buf.Len() == 0 {
+	// A wake-up does not mean there is data: an empty Write signals too.
+	for !rw.closed.Load() && rw.buf.Len() == 0 {
 		verifhook.Point("rd.beforeWait")
 		rw.cv.Wait()
 	}
@@ -58,7 +59,11 @@ func (rw *readWriter) Write(p []byte) (n int, err error) {
 
 func (rw *readWriter) Close() error {
 	verifhook.Point("cl.start")
+	// The flag is set under the mutex: a reader that has just decided to wait is then already
+	// enqueued when the broadcast is sent and cannot miss it.
+	rw.m.Lock()
 	rw.closed.Store(true)
+	rw.m.Unlock()
 	rw.cv.Broadcast()
 	rw.Wait()
 
